@@ -35,8 +35,9 @@ RULE = ("every documented goalign command with representative flags, on random n
         "-k commands and a reformat chain of 0-5 formats, the last one possibly paml / tnt, against the direct reformat; seqboot + compute distance against distboot for 5 models; cli_seeded: exact predicted bytes. Non-trivial = the "
         "command succeeded and wrote at least 20 bytes (or it is an error-path case with at least two invalid arguments)")
 PARTIAL = ["the bytes of each individual command are not modelled here (C01-C10, C12-C16 model the operations; exceptions: the seeded commands "
-           "of `cli_seeded`, and `divide` / `identical`, whose files / answer are predicted from the Phylip parser model, the writers and a "
-           "four-line model of Identical - oracle only, no theorem); C11's theorems are about "
+           "of `cli_seeded`, and `divide` / `identical`, whose files / answer are predicted from the Phylip parser model, the writers and the "
+           "model of Identical in Model/Identical.lean - characterised by the C01 theorems identical_iff_same_records / identicalRows_spec and "
+           "compared with the library by the C01 harness op `identical`); C11's theorems are about "
            "the sources of nondeterminism, seeding, thread independence of the pool / ordered collection, distboot = seqboot + distance, "
            "and format chains",
            "chain theorem instantiated for FASTA, Nexus, Phylip (8 layouts) and Clustal (chain_all_formats, under the hypotheses of "
